@@ -96,7 +96,7 @@ def gen_path(tape, model, for_set):
             if typed_top:
                 k = tape.choice(sorted(cur), "path.field")       # typed models: only declared fields at the top
             else:
-                pool = sorted(set(list(cur) + ["k1", "k2"]))
+                pool = sorted(set(list(cur) + ["k1", "k2", "memory"]))
                 k = tape.choice(pool, "path.key")
             segs.append(k)
             if k not in cur:
@@ -105,7 +105,7 @@ def gen_path(tape, model, for_set):
                 if for_set:
                     # remaining segments create dicts
                     for _ in range(depth - i - 1):
-                        segs.append(tape.choice(["k1", "k2"], "path.newkey"))
+                        segs.append(tape.choice(["k1", "k2", "memory"], "path.newkey"))
                 break
             cur = cur[k]
         elif isinstance(cur, list):
@@ -187,7 +187,7 @@ def run(tape):
                 await verify("after-set")
             elif op == "set_state":
                 if kind == "dict":
-                    new = {tape.choice(["k1", "k2", "a"], "ss.k"): gen_value(tape, 1)}
+                    new = {tape.choice(["k1", "k2", "a", "memory"], "ss.k"): gen_value(tape, 1)}
                     model.d = copy.deepcopy(new)
                     await both("set_state(replace)", lambda st: st.set_state(DictState(**copy.deepcopy(new))), ("ok", None))
                 elif kind == "child" and tape.chance(60, 100, "parent-merge"):
